@@ -10,6 +10,7 @@ pub mod serial;
 pub mod validation;
 pub mod transpose;
 pub mod stamql;
+pub mod webanno;
 
 pub fn run(family: &str, opts: &Opts) -> Option<Report> {
     // "family@m<interval>s<0|1>" runs the family under a store configuration variant
@@ -42,6 +43,7 @@ fn run_base(family: &str, opts: &Opts) -> Option<Report> {
         "validation" => Some(validation::run(opts)),
         "transpose" => Some(transpose::run(opts)),
         "stamql" => Some(stamql::run(opts)),
+        "webanno" => Some(webanno::run(opts)),
         _ => None,
     }
 }
@@ -56,6 +58,7 @@ pub fn exec_line(line: &str) -> Option<String> {
         Some("txt") => Some(textops::exec_line(line)),
         Some("dv") => Some(data::exec_line(line)),
         Some("ql") => Some(stamql::exec_line(line)),
+        Some("wj") => Some(webanno::exec_line(line)),
         _ => None,
     }
 }
